@@ -159,6 +159,7 @@ func buildRound(pndb *util.PNodeDB, root []byte, rd rRound) (*util.MerklePatrici
 				return nil, fmt.Errorf("merge: %w", merr)
 			}
 		}
+		_ = P.GetDeletes() // the block's dead list is looked at between transactions as well (it is only final at the end)
 	}
 	return P, nil
 }
@@ -580,6 +581,7 @@ func runC05(c *fw.Ctx) {
 			if big {
 				pv = v
 			}
+			oldPruned := pruned
 			allowed := map[string]bool{}
 			for _, s := range saved {
 				if s.version < pv {
@@ -658,6 +660,33 @@ func runC05(c *fw.Ctx) {
 				}
 				cp.Close()
 				wc.Restart()
+				if i == 0 && cerr != nil && pv > oldPruned {
+					// the prune failed before it wrote anything and the operator settles for a lower version on the SAME store
+					// object: nothing of the failed attempt may leak into it - every root not below the lower version stays readable
+					work3 := fmt.Sprintf("%s/lower-%d", tmp, i)
+					grocksdb.CopyDisk(tmp+"/pre", work3)
+					lp, _ := util.NewPNodeDB(work3, "")
+					wc3 := grocksdb.Control(work3)
+					wc3.CrashAfterWrites(0)
+					e1 := lp.PruneBelowVersion(context.Background(), pv)
+					wc3.Restart()
+					pv2 := oldPruned + int64(c.Rng.Intn(int(pv-oldPruned)))
+					if e1 != nil {
+						if e2 := lp.PruneBelowVersion(context.Background(), pv2); e2 == nil {
+							for _, s := range saved {
+								if s.version >= pv2 && s.version >= oldPruned {
+									if f := checkReadable(work3, s); f != "" {
+										fail("prune below %d failed before its first write, prune below %d was then run on the same store object: %s", pv, pv2, f)
+										break
+									}
+								}
+							}
+							c.Count("lower_prunes_after_a_failed_prune", 1)
+						}
+					}
+					lp.Close()
+					grocksdb.DropDisk(work3)
+				}
 				for _, s := range retained(pruned) {
 					if f := checkReadable(work, s); f != "" {
 						fail("crash after %d/%d writes of prune below %d: %s", i, W, pv, f)
@@ -745,7 +774,7 @@ func init() {
 	fw.Register(&fw.Prop{
 		ID:    "C05",
 		Level: "fault_enumeration",
-		Rule: "same round generator as C04 (4..12 rounds; thorough adds 60-round histories whose prune issues several delete batches). After each round: the dead sets reported by this and every earlier round must be disjoint from the node set reachable from the new root " +
+		Rule: "(The block trie's dead list is read between transactions as well as at the end; a prune that fails before its first write is followed, on the same store object, by a prune below a lower version, after which every root not below that version must be readable.) same round generator as C04 (4..12 rounds; thorough adds 60-round histories whose prune issues several delete batches). After each round: the dead sets reported by this and every earlier round must be disjoint from the node set reachable from the new root " +
 			"(reachability computed by the harness from raw stored bytes). At random points PruneBelowVersion(v) with random v: from the stand-in's write log every node key deleted must be in the union of dead sets of rounds < v, no node is written, records < v are gone and records >= v remain, " +
 			"every root saved at a version >= v is completely readable. For EVERY prefix i=0..W of the prune's write stream: crash after i writes, restart, retained roots readable, re-run prune, retained roots readable, records < v gone. " +
 			"non-trivial/distinct = distinct (history, round, prune version, crash index) points",
@@ -756,7 +785,7 @@ func init() {
 			return 3200
 		},
 		Run:    runC05,
-		Floors: map[string]int64{"histories": 3000, "rounds": 15000, "prunes": 3000, "crash_points": 8000, "dead_vs_reach_checks": 50000, "nodes_pruned": 5000, "dead_nodes_reported": 20000, "max:prune_stream_writes": 2},
+		Floors: map[string]int64{"histories": 3000, "rounds": 15000, "prunes": 3000, "crash_points": 8000, "dead_vs_reach_checks": 50000, "nodes_pruned": 5000, "dead_nodes_reported": 20000, "max:prune_stream_writes": 2, "lower_prunes_after_a_failed_prune": 800},
 		Assumptions: []string{
 			"same storage model as C04 (atomic batches, completed writes survive a process crash)",
 			"GetDeletes() of the block trie is the round's dead set, recorded under the round's version as the node does it",
